@@ -35,14 +35,14 @@ func (st Style) pad() string {
 	if st.Marks || st.Layout != NewlineLayout || st.Rng == nil {
 		return ""
 	}
-	return []string{"", "", "", " ", "\n", "\t", "  ", "\r\n"}[st.Rng.Intn(8)]
+	return []string{"", "", "", " ", "\n", "\t", "  ", "\r\n", "\r"}[st.Rng.Intn(9)]
 }
 
 func (st Style) inKeyword() string {
 	if st.Marks || st.Layout != NewlineLayout || st.Rng == nil {
 		return " in "
 	}
-	ws := []string{" ", "\n", "\t", "  ", " \n "}
+	ws := []string{" ", "\n", "\t", "  ", " \n ", "\r", "\r\n"}
 	return ws[st.Rng.Intn(len(ws))] + "in" + ws[st.Rng.Intn(len(ws))]
 }
 
